@@ -127,6 +127,10 @@ def judge(ctx, sc, im):
             continue
         args = {a: v for a, v in ops[k].items() if a not in ('k', 'warm')}
         b = store.canon_battery(b)
+        for x in b['scope'].get('synsets_x', []) if 'scope' in b else b.get('synsets_x', []):
+            if x.get('_root_ili') not in (None, [], ['None']):
+                ctx.fail('simulated-root-has-no-ili', sc, {'args': args, 'synset': x['ref'], 'root.ili': x['_root_ili']})
+                break
         inst = multi.installed_after(sc, im, k)
         default_mode = not args.get('lexicon') and not args.get('lang')
         if default_mode:
